@@ -126,6 +126,63 @@ run_burst_api(hx_job *j, int *err, uint32_t sid[2])
         return st;
 }
 
+/* one single-algorithm job on the oracle manager; returns 0 when completed */
+static int
+component(const hx_job *j, int keep_cipher, uint8_t *src, uint8_t *dst, uint8_t *tag)
+{
+        IMB_JOB *slot = IMB_GET_NEXT_JOB(M);
+        hx_job_to_slot(j, slot);
+        if (keep_cipher) {
+                slot->hash_alg = IMB_AUTH_NULL;
+                slot->chain_order = slot->cipher_direction == IMB_DIR_ENCRYPT ? IMB_ORDER_CIPHER_HASH : IMB_ORDER_HASH_CIPHER;
+        } else {
+                slot->cipher_mode = IMB_CIPHER_NULL;
+                slot->hash_alg = IMB_AUTH_CRC32_ETHERNET_FCS;
+                slot->chain_order = IMB_ORDER_HASH_CIPHER;
+                slot->auth_tag_output = tag;
+                slot->auth_tag_output_len_in_bytes = 4;
+        }
+        slot->src = src;
+        slot->dst = dst;
+        IMB_JOB *r = IMB_SUBMIT_JOB(M);
+        if (!r)
+                r = IMB_FLUSH_JOB(M);
+        return (r && r->status == IMB_STATUS_COMPLETED) ? 0 : 1;
+}
+
+/* DOCSIS SEC BPI + CRC32 (Ethernet PDU over DOCSIS) decomposed into the Ethernet-FCS hash-only job and the
+ * DOCSIS-BPI cipher-only job: encrypt = CRC over the hash range, stored behind it, then cipher; decrypt =
+ * cipher, then CRC over the deciphered hash range. Either length may be zero (that stage is skipped). */
+static int
+docsis_crc_composition(const hx_job *j, const hx_spec *sp)
+{
+        int res = 0;
+        uint8_t *buf = ga_alloc(j->src_size + 8, 1, GA_SLACK, "dc_buf", -3);
+        uint8_t *crc = ga_alloc(4, 1, GA_SLACK, "dc_crc", -3);
+        memcpy(buf, j->src_snapshot, j->src_size);
+        memset(crc, 0, 4);
+        if (sp->dir == IMB_DIR_ENCRYPT) {
+                if (sp->hlen) {
+                        if (component(j, 0, buf, NULL, crc))
+                                return 4;
+                        memcpy(buf + sp->hoff + sp->hlen, crc, 4);
+                }
+                if (sp->len && component(j, 1, buf, buf + sp->coff, NULL))
+                        return 4;
+        } else {
+                if (sp->len && component(j, 1, buf, buf + sp->coff, NULL))
+                        return 4;
+                if (sp->hlen && component(j, 0, buf, NULL, crc))
+                        return 4;
+        }
+        /* the whole frame as the combined job left it (in place) */
+        if (memcmp(buf, j->src, j->src_size) != 0)
+                res |= 1;
+        if (sp->hlen >= 14 && memcmp(crc, j->tag, 4) != 0)
+                res |= 2;
+        return res;
+}
+
 /* composition oracle; returns -1 n/a, 0 equal, bit0 dst differs, bit1 tag differs, 4 component failed */
 static int
 composition(const hx_job *j, const hx_spec *sp)
@@ -139,8 +196,9 @@ composition(const hx_job *j, const hx_spec *sp)
         case IMB_AUTH_CHACHA20_POLY1305:
         case IMB_AUTH_SNOW_V_AEAD:
         case IMB_AUTH_SM4_GCM:
-        case IMB_AUTH_DOCSIS_CRC32:
                 return -1;
+        case IMB_AUTH_DOCSIS_CRC32:
+                return sp->cm == IMB_CIPHER_DOCSIS_SEC_BPI ? docsis_crc_composition(j, sp) : -1;
         default:
                 break;
         }
@@ -215,6 +273,8 @@ cell(int mode, int klen, int dir, int hash, int order, hx_rng *g)
         ncells++;
         int kl_build = klen;
         hx_spec sp;
+        const int docsis_crc = mode == IMB_CIPHER_DOCSIS_SEC_BPI && hash == IMB_AUTH_DOCSIS_CRC32;
+        hx_docsis_shape = docsis_crc ? 2 : -1;
         int built = hx_spec_for(mode, klen, hash, dir, order, g, &sp);
         if (!built) {
                 kl_build = hx_any_keylen(mode);
@@ -301,6 +361,32 @@ cell(int mode, int klen, int dir, int hash, int order, hx_rng *g)
                                    ? (hx_job_cmp_out(&j, &jb) == 0)
                                    : -1);
         tr_int("abi", (long long) hx_abi_viol_bits);
+        if (docsis_crc && st == IMB_STATUS_COMPLETED) {
+                /* the other valid shapes of this cell: cipher without CRC, CRC without cipher */
+                int sh[2][5];
+                for (int s = 0; s < 2; s++) {
+                        hx_spec sp2;
+                        hx_job a, b;
+                        hx_docsis_shape = s;
+                        hx_spec_for(mode, klen, hash, dir, order, g, &sp2);
+                        sp2.placement = GA_SLACK;
+                        hx_job_build(M, &sp2, 3, &a);
+                        hx_job_build(M, &sp2, 4, &b);
+                        int e2 = 0;
+                        uint32_t sid2[2];
+                        sh[s][0] = s;
+                        sh[s][1] = run_job_api(&a, &e2);
+                        sh[s][2] = sh[s][1] == IMB_STATUS_COMPLETED ? composition(&a, &sp2) : -9;
+                        sh[s][3] = run_burst_api(&b, &e2, sid2);
+                        sh[s][4] = (sh[s][1] == IMB_STATUS_COMPLETED && sh[s][3] == IMB_STATUS_COMPLETED) ? (hx_job_cmp_out(&a, &b) == 0) : -1;
+                        hx_job_free(&a);
+                        hx_job_free(&b);
+                }
+                fprintf(hx_trace, ",\"shapes\":[[%d,%d,%d,%d,%d],[%d,%d,%d,%d,%d]]", sh[0][0], sh[0][1], sh[0][2], sh[0][3], sh[0][4],
+                        sh[1][0], sh[1][1], sh[1][2], sh[1][3], sh[1][4]);
+        } else
+                fprintf(hx_trace, ",\"shapes\":[]");
+        hx_docsis_shape = -1;
         tr_end();
         hx_job_free(&j);
         hx_job_free(&jb);
